@@ -24,6 +24,7 @@ from .util.request import set_file_position
 from .util.retry import Retry
 from .util.timeout import Timeout
 from .util.url import Url, parse_url
+from .util.util import to_str
 
 if typing.TYPE_CHECKING:
     import ssl
@@ -653,7 +654,7 @@ class ProxyManager(PoolManager):
         if headers:
             # Field names are case-insensitive: "host" provided by the user must
             # suppress the default "Host" instead of being sent alongside it.
-            provided = {k.lower() for k in headers}
+            provided = {to_str(k).lower() for k in headers}
             headers_ = {k: v for k, v in headers_.items() if k.lower() not in provided}
             headers_.update(headers)
         return headers_
